@@ -76,6 +76,12 @@ type walletSyncOp struct {
 
 func (o walletSyncOp) String() string { return fmt.Sprintf("walletSync(%d)", o.Sync) }
 
+type uptoSyncOp struct {
+	UptoSync int `json:"uptoSync"`
+}
+
+func (o uptoSyncOp) String() string { return fmt.Sprintf("upto+sync(%d)", o.UptoSync) }
+
 type walletWorld struct {
 	u   *univ.Universe
 	n   *node.Node
@@ -253,7 +259,7 @@ func c06() {
 			if shared[u.Name+string(u.Regime)] {
 				continue
 			}
-			if !run.Thorough() && i%4 != pi%4 {
+			if !run.Thorough() && i%6 != pi {
 				continue
 			}
 			u.Name = fmt.Sprintf("%s/wallet-as-role%d", u.Name, indexOf(p, 0))
@@ -287,8 +293,23 @@ func c06() {
 			return linMemo[tip]
 		}
 		ops := storyOps(u, false)
+		if !run.Thorough() {
+			// quick tier: plain submissions (followed by explicit chunked syncs) only for every second node
+			var sub []bfs.Op
+			for i, o := range ops {
+				if i%2 == 0 {
+					sub = append(sub, o)
+				}
+			}
+			ops = sub
+		}
 		for _, c := range []int{1, 2, 1000} {
 			ops = append(ops, walletSyncOp{c})
+		}
+		// combined "submit then sync to the tip" steps, so that reorg-there-and-back histories with a synced
+		// wallet at every stop fit into the depth bound
+		for k := 1; k < len(u.Nodes); k++ {
+			ops = append(ops, uptoSyncOp{k})
 		}
 		res := bfs.Run(bfs.Config{
 			New: func() bfs.World { return &walletWorld{u: u, n: node.New(u), st: wstore.New(), rig: rig} },
@@ -324,6 +345,20 @@ func c06() {
 							}
 						}
 					}
+				case uptoSyncOp:
+					if _, pan := applySubmission(w.n, uptoOp{op.UptoSync}); pan != nil {
+						return &bfs.Violation{Signature: "c06:panic:submit", What: fmt.Sprint(pan)}
+					}
+					for w.st.TipIdx != w.n.CM.Tip() {
+						if _, err := w.syncChunk(1000); err != nil {
+							return &bfs.Violation{Signature: "c06:sync-error", What: fmt.Sprintf("%s: %v from %v failed: %v", u.Describe(), o, w.st.TipIdx, err)}
+						}
+					}
+					if check {
+						if sig, what := walletOracle(w, linear); sig != "" {
+							return &bfs.Violation{Signature: sig, What: fmt.Sprintf("%s: after %v: %s", u.Describe(), o, what)}
+						}
+					}
 				default:
 					if _, pan := applySubmission(w.n, o); pan != nil {
 						return &bfs.Violation{Signature: "c06:panic:submit", What: fmt.Sprint(pan)}
@@ -332,7 +367,7 @@ func c06() {
 				return nil
 			},
 			MaxDepth:  depth,
-			MaxStates: 3000,
+			MaxStates: map[bool]int{true: 3000, false: 1200}[run.Thorough()],
 			Stop:      run.Expired,
 		})
 		run.Add(int64(res.States), int64(res.Transitions), int64(res.Transitions), int64(res.Transitions))
